@@ -31,6 +31,33 @@ fn answers_of(out: &RunOut) -> (Vec<String>, bool) {
     }
 }
 
+thread_local! {
+    /// leaves whose fairness run was cut by wall-clock time (see `run_sliced`)
+    static SLOW_LEAVES: std::cell::Cell<u64> = std::cell::Cell::new(0);
+}
+
+/// Runs `comb` with a step budget that GROWS (x4 from 20 000 up to `budget`) until `done` accepts the answers, the search ends,
+/// or the full budget has been used.  The answers within a smaller budget are a prefix of those within a larger one, so an
+/// early acceptance is the verdict of the full run.  A diverging branch whose terms grow makes every engine step slower than
+/// the one before (each binding clones the substitution map): when a slice that still has not delivered the wanted answers
+/// took more than 3 s of wall-clock time the remaining budget would take minutes to hours — the leaf is then INCONCLUSIVE
+/// (third component), not starved: the engine is stepping, only slowly.
+fn run_sliced(comb: &Prog, budget: u64, done: &dyn Fn(&[String]) -> bool) -> (Vec<String>, bool, bool) {
+    let mut b = std::cmp::min(budget, 20_000);
+    loop {
+        let t0 = std::time::Instant::now();
+        let co = run_prog_b(comb, b);
+        let (got, cut) = answers_of(&co);
+        if !cut || b >= budget || done(&got) {
+            return (got, cut, false);
+        }
+        if t0.elapsed().as_millis() > 3000 {
+            return (got, cut, true);
+        }
+        b = std::cmp::min(budget, b.saturating_mul(4));
+    }
+}
+
 /// (impl line, oracle failure, nontrivial, model fuel)
 fn eval_case(c: &Case, take: usize) -> (Prog, String, Option<String>, bool, u64) {
     let mut body = c.pre.clone();
@@ -63,8 +90,11 @@ fn eval_case(c: &Case, take: usize) -> (Prog, String, Option<String>, bool, u64)
         let share = 1u64 << std::cmp::min(i as u64 + 2, 9);
         let budget = std::cmp::max(400 * t + 5000, (25 * t + 300) * share);
         let comb = Prog { take: if share > 64 { 600 } else { 150 }, ..p.clone() };
-        let co = run_prog_b(&comb, budget);
-        let (got, cut) = answers_of(&co);
+        let (got, cut, slow) = run_sliced(&comb, budget, &|got: &[String]| want.iter().all(|w| got.contains(w)));
+        if slow {
+            SLOW_LEAVES.with(|c| c.set(c.get() + 1));
+            continue;
+        }
         for w in &want {
             if !got.contains(w) {
                 fail = Some(format!(
@@ -96,11 +126,12 @@ fn eval_case(c: &Case, take: usize) -> (Prog, String, Option<String>, bool, u64)
             let (a, _) = answers_of(&ao);
             if let Some(rare) = a.iter().find(|x| a.iter().filter(|y| y == x).count() == 1) {
                 let comb = Prog { take: 150, ..p.clone() };
-                let co = run_prog_b(&comb, 400 * t + 20_000);
-                let (got, _) = answers_of(&co);
+                let (got, _, slow) = run_sliced(&comb, 400 * t + 20_000, &|got: &[String]| got.iter().filter(|y| *y == rare).count() >= 2);
                 let n = got.iter().filter(|y| *y == rare).count();
                 nontrivial = true;
-                if n < 2 {
+                if slow {
+                    SLOW_LEAVES.with(|c| c.set(c.get() + 1));
+                } else if n < 2 {
                     fail = Some(format!(
                         "the loop body delivers `{}` once among its first {} answers; 150 answers of the loop contain it {} time(s): the later unfoldings of the loop are starved",
                         rare, a.len(), n
@@ -114,6 +145,10 @@ fn eval_case(c: &Case, take: usize) -> (Prog, String, Option<String>, bool, u64)
 
 fn record(c: &Case, out: &mut Out) {
     let (p, line, fail, nt, fuel) = eval_case(c, 12);
+    let slow = SLOW_LEAVES.with(|c| c.replace(0));
+    for _ in 0..slow {
+        out.stat("leaves_inconclusive_engine_steps_too_slow");
+    }
     if line.contains("BUDGET") {
         out.stat("combined_prefix_ends_in_budget");
     }
